@@ -127,7 +127,7 @@ package sender
 // matching its name is an exclude rule.
 //@ spec func ruleMatches(fr: *sender.filterRule, name: Str): bool = ite(hasSlash(fr.pattern), fr.pattern == name, fr.pattern == baseOf(name))
 //@ spec func ruleIsInclude(fr: *sender.filterRule): bool = mod(fr.flag, 2) == 1
-//@ spec func isSkipDir(e: error): bool = e == global("path/filepath.SkipDir") || e == global("io/fs.SkipDir")
+//@ spec func isSkipDir(e: error): bool = e != nil && (e == global("path/filepath.SkipDir") || e == global("io/fs.SkipDir"))
 
 //@ func (*sender.filterRule).matches
 //@   ensures[C13] [plain-name-match] result <==> ruleMatches(fr, name)
